@@ -79,7 +79,7 @@ func runDropped(c droppedCase, r *pb.Rec) error {
 }
 
 func init() {
-	pb.Register("heap_handles_of_dropped_heaps", pb.Options{Base: 600,
+	pb.Register("heap_handles_of_dropped_heaps", pb.Options{Base: 150,
 		Rule: "2..6 rounds: a heap of 1..12 elements is built and dropped while the program keeps 1..3 of its element handles, a garbage collection runs, a new heap with the same number of elements is built, and Remove / Fix are called on it with every kept handle; oracle: the new heap keeps all its elements (Len, Index() of its handles, drain in sorted order); non-trivial = >= 3 elements"},
 		genDropped, runDropped)
 }
